@@ -96,6 +96,9 @@ theorem divrem_1_val (qxn : Nat) (u : List Nat) (d : Nat) (hu : Limbs u) (hd0 : 
 
 example : divrem_1 2 [7] 5 = ([0x6666666666666666, 0x6666666666666666, 1], 2) := by decide
 example : divrem_1 1 [1, B - 1] (B - 1) = ([1, 0, 1], 1) := by decide
+-- the Hensel path (30 limbs, d = 6): remainder by mod_1_3 folding, quotient by the 2-adic division shifted by 1
+example : (divrem_1 0 (List.replicate 30 7) 6).2 = 3 := by decide
+example : (divrem_1 0 (List.replicate 30 7) 6).1.head? = some 0xd555555555555556 := by decide
 
 /-- mpn_mod_1 (mpn/generic/mod_1.c): the remainder, for all lengths and every non-zero divisor. -/
 theorem mod_1_val (u : List Nat) (d : Nat) (hu : Limbs u) (hd0 : 0 < d) (hdB : d < B) :
